@@ -455,6 +455,63 @@ def recover_names(tree, modname, ref=None):
     return done
 
 
+def split_divmod(tree):
+    """`q, r = divmod(a, k)` is `q = a // k; r = a % k` (a and k simple:
+    evaluated twice, no effects)"""
+    n = 0
+    for owner in ast.walk(tree):
+        for fld in ("body", "orelse", "finalbody"):
+            lst = getattr(owner, fld, None)
+            if not isinstance(lst, list) or not lst or not isinstance(
+                    lst[0], ast.stmt):
+                continue
+            out = []
+            for st in lst:
+                if isinstance(st, ast.Assign) and len(st.targets) == 1 and \
+                        isinstance(st.targets[0], ast.Tuple) and len(
+                            st.targets[0].elts) == 2 and all(isinstance(
+                                e, ast.Name) for e in st.targets[0].elts) \
+                        and isinstance(st.value, ast.Call) and isinstance(
+                            st.value.func, ast.Name) and \
+                        st.value.func.id == "divmod" and len(
+                            st.value.args) == 2 and not st.value.keywords \
+                        and all(_simple_subject(a) for a in st.value.args) \
+                        and not any(isinstance(a, ast.Name) and a.id in (
+                            st.targets[0].elts[0].id,
+                            st.targets[0].elts[1].id)
+                            for a in st.value.args):
+                    from copy import deepcopy
+                    a, k = st.value.args
+                    q, r = st.targets[0].elts
+                    s1 = ast.Assign(targets=[q], value=ast.BinOp(
+                        left=deepcopy(a), op=ast.FloorDiv(),
+                        right=deepcopy(k)))
+                    s2 = ast.Assign(targets=[r], value=ast.BinOp(
+                        left=deepcopy(a), op=ast.Mod(), right=deepcopy(k)))
+                    for x in (s1, s2):
+                        ast.copy_location(x, st)
+                        ast.fix_missing_locations(x)
+                    out += [s1, s2]
+                    n += 1
+                elif isinstance(st, ast.Assign) and len(st.targets) > 1 \
+                        and isinstance(st.value, (ast.Name, ast.Constant)) \
+                        and not any(isinstance(x, ast.Name) and isinstance(
+                            st.value, ast.Name) and x.id == st.value.id
+                            for t in st.targets for x in ast.walk(t)):
+                    # `a = b = v` is `a = v; b = v` for a name or literal v
+                    from copy import deepcopy
+                    for t in st.targets:
+                        s1 = ast.Assign(targets=[t],
+                                        value=deepcopy(st.value))
+                        ast.copy_location(s1, st)
+                        out.append(s1)
+                    n += 1
+                else:
+                    out.append(st)
+            lst[:] = out
+    return n
+
+
 def canon_shapes(tree):
     """`if not c: A else: B` -> `if c: B else: A`;  `n = n + 3` -> `n += 3`
     (plain local, integer literal).  One spelling per meaning, so that the
@@ -643,6 +700,23 @@ class _Fold(ast.NodeTransformer):
                 return node
         return ast.copy_location(ast.Constant("".join(parts)), node)
 
+    calcsize = ()
+
+    def visit_Call(self, node):
+        self.generic_visit(node)
+        # calcsize("<HHBB") is 6 (struct's own calcsize only)
+        if ast.unparse(node.func) in self.calcsize and len(node.args) == 1 \
+                and not node.keywords and isinstance(
+                    node.args[0], ast.Constant) and isinstance(
+                        node.args[0].value, str):
+            import struct
+            try:
+                return ast.copy_location(ast.Constant(struct.calcsize(
+                    node.args[0].value)), node)
+            except struct.error:
+                return node
+        return node
+
     def visit_UnaryOp(self, node):
         self.generic_visit(node)
         if isinstance(node.op, (ast.USub, ast.Invert)) and self._int(
@@ -654,7 +728,21 @@ class _Fold(ast.NodeTransformer):
 
 
 def fold_constants(tree):
-    return _Fold().visit(tree)
+    f = _Fold()
+    names = set()
+    for n in ast.walk(tree):
+        if isinstance(n, ast.ImportFrom) and n.module == "struct" \
+                and not n.level:
+            names.update(a.asname or a.name for a in n.names
+                         if a.name == "calcsize")
+        elif isinstance(n, ast.Import):
+            names.update((a.asname or a.name) + ".calcsize"
+                         for a in n.names if a.name == "struct")
+    # a module that defines its own calcsize is left alone
+    own = {n.name for n in ast.walk(tree) if isinstance(
+        n, (ast.FunctionDef, ast.AsyncFunctionDef, ast.ClassDef))}
+    f.calcsize = tuple(n for n in names if n.split(".")[0] not in own)
+    return f.visit(tree)
 
 
 def _literal_truth(e):
@@ -1280,7 +1368,8 @@ def normalize(tree, modname):
     from . import inline
     ref = reference()
     info = {"noise_removed": strip_noise(tree)}
-    info["match_lowered"] = lower_match(tree) + hoist_walrus(tree)
+    info["match_lowered"] = lower_match(tree) + hoist_walrus(tree) + \
+        split_divmod(tree)
     info["reshaped"] = canon_shapes(tree)
     info["rotated"] = rotate_loops(tree) + unwrap_genexp_loops(tree)
     if os.environ.get("SA_CANON_FLOW", "1") == "1":
@@ -1294,8 +1383,10 @@ def normalize(tree, modname):
             if not k:
                 break
         info["helpers_inlined"] = inline.inline_helpers(tree, modname, ref)
-        info["helpers_inlined"] += inline.inline_namedtuples(tree, modname,
-                                                             ref)
+        k_nt = inline.inline_namedtuples(tree, modname, ref)
+        info["helpers_inlined"] += k_nt
+        if k_nt:
+            inline._drop_identity_assignments(tree)
         # inlining may have produced `if not c: ... else: ...` again
         if info["helpers_inlined"] and os.environ.get(
                 "SA_CANON_FLOW", "1") == "1":
@@ -1323,6 +1414,7 @@ def normalize(tree, modname):
                 n += inline.inline_temporaries(func, set(locs.get(q, [])))
         info["temporaries_inlined"] = n
         if n:
+            inline.operator_calls(tree)
             canon_shapes(tree)
             fold_constants(tree)
             # with the temporaries gone the remaining locals line up
